@@ -83,7 +83,10 @@ def scenarios(draw, await_run_loop=False):
     if not queue_second and draw(st.booleans()):
         ops.append(['add', 'second'])
     reuse = shape in FINITE and draw(st.booleans()) and stop != 'stop_all'
-    if reuse:
+    if reuse and draw(st.integers(0, 2)) == 0:
+        # the same job object is queued behind its own first run
+        ops.insert(1, ['add', 'first', 'reuse'])
+    elif reuse:
         ops.append(['pause', 3.0])
         ops.append(['add', 'first', 'reuse'])
     if with_background and stop != 'stop_all':
@@ -271,7 +274,21 @@ def analyse(scenario, result):
                       and i > rerun_start and e[3] == 'cmd' and e[4] == 'L1']
         want = FINITE[scenario['shape']]
         labels.append('re-executed')
-        if rerun_start is None or len(rerun_cmds) != want:
+        # queued behind its own first run, the second run can itself be what
+        # the request was aimed at: the agent that agent_stop got hold of
+        # ran it, or stop_current / stop_job returned when the first run
+        # was over
+        behind = reuse[0] < stop_call
+        stop_threads = getattr(result, 'stop_threads', [])
+        if behind and rerun_start is not None and (
+                log[rerun_start][2] in stop_threads or (
+                    stop_kind != 'agent_stop' and
+                    (first_end is None or first_end < stop_ret))):
+            labels.append('stop-may-target-rerun')
+        elif behind and stop_kind == 'agent_stop' and first_start is not None \
+                and stop_threads and stop_threads[0] is None:
+            labels.append('stop-may-target-rerun')  # agent not started yet
+        elif rerun_start is None or len(rerun_cmds) != want:
             problems.append(('rerun-after-stop-incomplete',
                              'the stopped job, queued again, sent {} of its '
                              '{} commands'.format(len(rerun_cmds), want)))
@@ -332,8 +349,10 @@ def fixed_scenarios():
                     'clients': [ops]})
     # the stop races with the end of a short script, whose job object is then
     # run again: that second run was never a stop target
-    for stop in ('agent_stop', 'stop_current', 'stop_job'):
-        ops = [['add', 'first'], ['steps', 0],
+    for stop in ('agent_stop', 'stop_current', 'stop_job', 'behind'):
+        ops = [['add', 'first'], ['add', 'first', 'reuse'], ['steps', 90],
+               ['agent_stop'], ['wait_idle', 40]] if stop == 'behind' else \
+              [['add', 'first'], ['steps', 0],
                [stop] if stop != 'stop_job' else ['stop_job', 'first'],
                ['pause', 3.0], ['add', 'first', 'reuse'], ['wait_idle', 40]]
         out.append({'population': POP, 'shape': 'straight', 'tick': 0.25,
@@ -344,7 +363,7 @@ def fixed_scenarios():
     return out
 
 
-RACE_WITH_END = (5, 6, 7)     # indexes in fixed_scenarios()
+RACE_WITH_END = (5, 6, 7, 8)     # indexes in fixed_scenarios()
 
 
 def enumerate_fixed(acc, index, part, parts, depth):
@@ -364,6 +383,39 @@ def enumerate_fixed(acc, index, part, parts, depth):
         'enumerated_schedules', 0) + count
 
 
+def enumerate_tail(acc, index, part, parts, window):
+    """Two preemptions: the client is interrupted at each step of its stop
+    call in favour of the job thread, which is in turn interrupted at each
+    of the `window` steps that follow the end of the script (its completion
+    handling) in favour of the client."""
+    scenario = fixed_scenarios()[index]
+    base = check(acc, scenario, {'preemptions': {}, 'choices': []},
+                 'enumerated')
+    log = base.sched.log
+    call = next(e[1] for e in log if e[3] == 'call' and e[5][0] in (
+        'agent_stop', 'stop_current', 'stop_job'))
+    ret = next(e[1] for e in log if e[3] == 'ret' and e[5][0] in (
+        'agent_stop', 'stop_current', 'stop_job'))
+    count = 0
+    number = 0
+    for s1 in range(call, ret + 1):
+        first = check(acc, scenario, {'preemptions': {str(s1): 1},
+                                      'choices': []}, 'enumerated')
+        end = next((e[1] for e in first.sched.log if e[3] == 'job-end'
+                    and e[1] > s1), None)
+        if end is None:
+            continue
+        for s2 in range(end, end + window):
+            number += 1
+            if number % parts != part:
+                continue
+            check(acc, scenario, {'preemptions': {str(s1): 1, str(s2): 0},
+                                  'choices': []}, 'enumerated')
+            count += 1
+    acc.extra['enumerated_schedules'] = acc.extra.get(
+        'enumerated_schedules', 0) + count
+
+
 def plan(tier, seed_value):
     specs = []
     per = 2500 if tier == 'thorough' else 300
@@ -375,11 +427,20 @@ def plan(tier, seed_value):
             for part in range(8):
                 specs.append({'kind': 'enumerate', 'index': index,
                               'part': part, 'parts': 8, 'depth': 1})
+    for index in RACE_WITH_END:
+        for part in range(4):
+            specs.append({'kind': 'tail', 'index': index, 'part': part,
+                          'parts': 4,
+                          'window': 120 if tier == 'thorough' else 50})
     return specs
 
 
 def run_shard(spec):
     acc = Acc()
+    if spec['kind'] == 'tail':
+        enumerate_tail(acc, spec['index'], spec['part'], spec['parts'],
+                       spec['window'])
+        return acc
     if spec['kind'] == 'enumerate':
         enumerate_fixed(acc, spec['index'], spec['part'], spec['parts'],
                         spec['depth'])
